@@ -256,7 +256,7 @@ class CFG(object):
             eouts = self._block(st.finalbody, [(fin_exc_entry.id, None)])
             self._handlers.pop()
             for (p, lab) in eouts:
-                self._edge(p, outer_handler, "exc")
+                self._edge(p, outer_handler, "exc" if lab in (None, "exc") else "exc:" + lab)
         return outs
 
     # -------------------------------------------------------------- queries
@@ -293,6 +293,29 @@ class CFG(object):
         r = self.reachable(self.entry.id, avoid=lambda n: n.id != target and through(n), follow=follow)
         return target not in r
 
+    def guarded_by(self, target, establishes, follow=None):
+        """True iff every path entry ->* target traverses an edge leaving a test node t with the label
+        establishes(t.ast) ('T' or 'F'): the fact holds on that outcome of the test, whatever the
+        syntactic form (if/else, early return, conditional expression is not covered)."""
+        seen = set()
+        stack = [self.entry.id]
+        while stack:
+            x = stack.pop()
+            if x in seen:
+                continue
+            seen.add(x)
+            if x == target:
+                return False
+            nx = self.nodes[x]
+            est = establishes(nx.ast) if nx.kind == "test" and nx.ast is not None else None
+            for (y, lab) in self.succ[x]:
+                if follow is not None and not follow(lab):
+                    continue
+                if est is not None and lab == est:
+                    continue
+                stack.append(y)
+        return True
+
     def path(self, src, dst, avoid=None, follow=None):
         """Some path src ->* dst avoiding `avoid` nodes, as list of nodes (diagnostics)."""
         prev = {src: None}
@@ -318,7 +341,7 @@ class CFG(object):
 
 
 def normal_only(lab):
-    return lab != "exc"
+    return not (lab or "").startswith("exc")
 
 
 def calls_in(node):
@@ -348,4 +371,27 @@ def dotted(node):
         if d:
             parts.append(d + "()")
             return ".".join(reversed(parts))
+    return None
+
+
+def membership_outcome(test, container, key=None, want_in=False):
+    """For a test expression that decides `key in container`, the edge label ('T'/'F') on which the key is
+    (want_in=True) / is not (want_in=False) in the container; None if the test does not decide it.  Handles
+    `k in c`, `k not in c`, `not (...)`, and the conjunct/disjunct positions that still imply the fact."""
+    from .loader import norm
+    if isinstance(test, ast.UnaryOp) and isinstance(test.op, ast.Not):
+        r = membership_outcome(test.operand, container, key, want_in)
+        return {"T": "F", "F": "T", None: None}[r]
+    if isinstance(test, ast.Compare) and len(test.ops) == 1 and isinstance(test.ops[0], (ast.In, ast.NotIn)) \
+            and norm(test.comparators[0]) == container and (key is None or norm(test.left) == key):
+        is_in = isinstance(test.ops[0], ast.In)
+        return "T" if is_in == want_in else "F"
+    if isinstance(test, ast.BoolOp):
+        # `a and b` true => each conjunct true; `a or b` false => each disjunct false
+        for v in test.values:
+            r = membership_outcome(v, container, key, want_in)
+            if isinstance(test.op, ast.And) and r == "T":
+                return "T"
+            if isinstance(test.op, ast.Or) and r == "F":
+                return "F"
     return None
